@@ -21,7 +21,7 @@ def run (_tag : String) (kv : KV) : String :=
   let goneRace := proto = .netrpc && (b = "fast" || b = "fast500" || b = "fastlost" || b = "dead" || b = "busy1000")
   let forced := if pat = "concurrent" || goneRace then "any" else showBool o.forced
   -- a reattached client learns of the exit by polling once a second
-  let slack := if kv.getD "launch" "cmd" = "reattach" then 1200 else 0
+  let slack := if kv.getD "launch" "cmd" = "reattach" ∨ kv.getD "launch" "cmd" = "reattach-far" then 1200 else 0
   s!"ret={showBool o.returns} forced={forced} dead={showBool o.procDead} exited={showBool o.exitedFlag} bound={o.boundMs + slack}"
 
 end GoPlugin.Oracle.C04
